@@ -154,6 +154,25 @@ def check_ref_format(refname: Ref) -> bool:
     return True
 
 
+def _remove_empty_dirs(path: bytes) -> None:
+    """Remove a directory that contains nothing but empty directories.
+
+    An update of ``refs/heads/a/b`` that fails (e.g. because the expected old
+    value does not match) leaves the directory ``refs/heads/a`` behind; like
+    git, get it out of the way when a ref is to be stored at that very path.
+    Anything else (a file, a directory with content, a missing path) is left
+    alone.
+    """
+    try:
+        entries = os.listdir(path)
+    except OSError:
+        return
+    for entry in entries:
+        _remove_empty_dirs(os.path.join(path, entry))
+    with suppress(OSError):
+        os.rmdir(path)
+
+
 def _collapse_slashes(refname: bytes) -> bytes:
     """Collapse runs of consecutive slashes in a ref name into a single slash."""
     return b"/".join(component for component in refname.split(b"/") if component)
@@ -1290,15 +1309,13 @@ class DiskRefsContainer(RefsContainer):
             realname = name
         filename = self.refpath(realname)
 
-        # make sure none of the ancestor folders is in packed refs
-        probe_ref = Ref(os.path.dirname(realname))
+        # make sure neither an ancestor folder nor anything below this name is
+        # in packed refs
         packed_refs = self.get_packed_refs()
-        while probe_ref:
-            if packed_refs.get(probe_ref, None) is not None:
-                raise NotADirectoryError(filename)
-            probe_ref = Ref(os.path.dirname(probe_ref))
+        self._check_no_packed_conflict(realname, filename)
 
         ensure_dir_exists(os.path.dirname(filename))
+        _remove_empty_dirs(filename)
         with GitFile(filename, "wb") as f:
             if old_ref is not None:
                 try:
@@ -1340,6 +1357,23 @@ class DiskRefsContainer(RefsContainer):
             )
         return True
 
+    def _check_no_packed_conflict(self, name: Ref, filename: bytes) -> None:
+        """Refuse a name that collides, as file versus directory, with a packed ref.
+
+        Loose refs collide in the file system itself; packed refs have no
+        files, so both directions have to be checked by hand.
+        """
+        packed_refs = self.get_packed_refs()
+        probe_ref = Ref(os.path.dirname(name))
+        while probe_ref:
+            if packed_refs.get(probe_ref, None) is not None:
+                raise NotADirectoryError(filename)
+            probe_ref = Ref(os.path.dirname(probe_ref))
+        prefix = name + b"/"
+        for packed_name in packed_refs:
+            if packed_name.startswith(prefix):
+                raise IsADirectoryError(filename)
+
     def add_if_new(
         self,
         name: Ref,
@@ -1373,7 +1407,9 @@ class DiskRefsContainer(RefsContainer):
             realname = name
         self._check_refname(realname)
         filename = self.refpath(realname)
+        self._check_no_packed_conflict(realname, filename)
         ensure_dir_exists(os.path.dirname(filename))
+        _remove_empty_dirs(filename)
         with GitFile(filename, "wb") as f:
             if os.path.exists(filename) or name in self.get_packed_refs():
                 f.abort()
@@ -1422,6 +1458,7 @@ class DiskRefsContainer(RefsContainer):
         self._check_refname(name)
         filename = self.refpath(name)
         ensure_dir_exists(os.path.dirname(filename))
+        _remove_empty_dirs(filename)
         f = GitFile(filename, "wb")
         try:
             if old_ref is not None:
@@ -1906,6 +1943,7 @@ class locked_ref:
 
         filename = self._refs_container.refpath(self._realname)
         ensure_dir_exists(os.path.dirname(filename))
+        _remove_empty_dirs(filename)
         f = GitFile(filename, "wb")
         self._file = f
         return self
